@@ -1674,6 +1674,52 @@ CHECKS["C13"] = Spec(
          "and reopen; the freelist file image is compared byte for byte with the model after every flush/GC, and on the real files: no duplicate entry, "
          "no entry naming a current location; non-trivial = >= 1 flush and >= 1 operation that superseded a location",
 )
+def _c11_conc(ctx):
+    """C11 over schedules: a writer or reader of K overlapping the relocation of K's record by a primary GC cycle (and the other families of C06);
+    afterwards everything is removed and flushed, and after four further cycles every primary file but the current one must be empty or unlinked."""
+    prop, tier, wd, rng = ctx["prop"], ctx["tier"], ctx["wd"], ctx["rng"]
+    C.go_build(["concdrive"])
+    scen = []
+    cdir = os.path.join(C.VERIF, "corpus", prop)
+    if os.path.isdir(cdir):
+        for fn in sorted(os.listdir(cdir)):
+            if fn.endswith(".scn"):
+                scen.append(open(os.path.join(cdir, fn)).read())
+    n = 60 if tier == "quick" else 3000
+    if ctx.get("replay") and ctx["replay"].endswith(".scn"):
+        scen, n = [open(ctx["replay"]).read()], 0
+    elif ctx.get("replay"):
+        return [], {}
+    # relocation-targeted (0.2-0.4) and orphan-relocation (0.6-0.64) families, and a third from the general mix
+    scen += _conc_scenarios(rng, n // 2, True, fam_range=(0.2, 0.4)) + _conc_scenarios(rng, n // 6, True, fam_range=(0.6, 0.64)) + _conc_scenarios(rng, n - n // 2 - n // 6, True)
+    def cfgline(t):
+        first, rest = t.split("\n", 1)
+        first = re.sub(r" gcmodel=\S+", "", first)
+        if "quiet_ms=" not in first:
+            first += " quiet_ms=250"
+        return first + " drain=1\n" + rest
+    scen = [t if " drain=1" in t.split("\n")[0] else cfgline(t) for t in scen]
+    res = run_conc(scen, wd, "c11conc", proc_timeout=180)
+    viol, judged = [], 0
+    for txt, r, raw in res:
+        if r is None:
+            raise C.CheckError("concdrive failed: " + raw)
+        if r["stuck"] or r.get("drain_leftover") is None:
+            continue            # a call that does not return is C05's / C06's matter
+        judged += 1
+        if r["drain_leftover"] and len(viol) < 3:
+            bad = "after the schedule everything was removed and flushed, yet after four primary GC cycles these non-current primary files still hold bytes: %s" % ", ".join(sorted(r["drain_leftover"]))
+            rp = C.save_replay(prop, "sched-%s.scn" % hashlib.sha1(txt.encode()).hexdigest()[:10],
+                               "# %s fails on the implementation: %s\n# replay: cd /verif && ./check %s --replay <this file>\n%s" % (prop, bad, prop, txt))
+            viol.append(("schedule: C11: " + bad, rp, True))
+    return viol, {"evaluations": len(scen), "distinct_nontrivial": judged, "concurrent_scenarios_judged_by_the_drain": judged,
+                  "samples": [{"scenario": scen[-1].strip().split("\n")}],
+                  "concurrency_rule": "callers of K overlapping the relocation of K's record by a primary GC cycle, a Put of a new key whose record a cycle tries to relocate before it is "
+                                      "indexed, and C06's general mix, stepped through the yield points; then fillers (the write position moves on by more than a file), every key removed, "
+                                      "flush, four primary cycles with flushes: every primary file but the current one must be empty or unlinked (a record that no caller and no "
+                                      "freelist entry accounts for keeps its file alive)"}
+
+
 CHECKS["C11"] = Spec(
     prop_file="C11.v",
     quick_n=120, thorough_n=1200,      # every history ends with a drain phase of ~10 cycles, each followed by byte images of all files: the replay is the expensive part
@@ -1688,6 +1734,8 @@ CHECKS["C11"] = Spec(
          "be empty or unlinked and a further cycle must write nothing",
     tail="drain",
     extra_oracle=oracles.c11_drain,
+    tools=["sthdrive", "witness", "concdrive"],
+    extra=_c11_conc,
 )
 
 # ------------------------------------------------------------------------------------------------ flow
